@@ -119,6 +119,12 @@ Proof. vm_compute. reflexivity. Qed.
 Example reset_chain_is_reached : chain_runs = true.
 Proof. vm_compute. reflexivity. Qed.
 
+(* the members of the long-lived NodeSorter (classified scratch, not touched by reset()) are emptied by
+   guard objects declared before the sort-key evaluation that can throw: empty again on every exit *)
+Example nodesorter_caches_emptied_on_every_exit :
+  forallb (fun p => snd p) nodesorter_guarded = true /\ List.length nodesorter_guarded = 3.
+Proof. vm_compute. split; reflexivity. Qed.
+
 Example params_guard_satisfiable :
   let h := [OSetParamE 0 1; OSetParamV 1 4; OClearParams; OSetParamV 0 2; OSetParamE 0 3; OSetParamE 2 5] in
   no_form_switch (rev h) 0 = true /\ last_set (rev h) 0 = Some (true, 3) /\ last_set (rev h) 1 = None.
